@@ -553,6 +553,30 @@ impl<'o> Expander<'o> {
                     if mca.apply(x).is_err() || mcb.apply(x).is_err() {
                         continue;
                     }
+                    // the same twins once more with disjoint lifetimes: the second twin is kept (as an entry of
+                    // a table would be); the first twin is expanded and let go of completely, with nothing
+                    // else happening in between; then the second one is rebuilt through the constructors
+                    // and expanded (storage the engine may have keyed something on is reused by then)
+                    {
+                        let second = guard(|| {
+                            let b = eng.take_action(&aj).take_action(&ai);
+                            {
+                                let a = eng.take_action(&ai).take_action(&aj);
+                                let c = a.take_action(&xa);
+                                drop(c);
+                                drop(a);
+                            }
+                            fork_with_history(&b, &mb, &[]).map(|r| r.0.take_action(&xa))
+                        });
+                        if let Ok(Some(c2)) = second {
+                            st.bump("transposed_twins_with_disjoint_lifetimes");
+                            self.obs.on_state(&View::new(&c2, &mcb, true), st).map_err(|f| {
+                                let mut p = path.clone();
+                                p.extend_from_slice(&[aj, ai, xa]);
+                                (Fail::new(&f.clause, format!("(state expanded right after its transposed twin) (the twin had been expanded and dropped before this one was rebuilt through the constructors and expanded) {}", f.detail)), p)
+                            })?;
+                        }
+                    }
                     pairs += 1;
                     st.bump("transposed_twins_expanded_back_to_back");
                     for (e, mm, order) in [(&cb, &mcb, [aj, ai]), (&ca, &mca, [ai, aj])] {
